@@ -50,13 +50,13 @@ STORAGE_ENTRIES = (
     "get_size", "get_modified_time", "write_file", "write_json", "delete_file",
     "makedirs", "create_lock",
 )
-DFM_ENTRIES = ("get_arrow_path", "open_parquet_source")
+DFM_ENTRIES = ("get_arrow_path", "open_parquet_source", "write_data_file")
 TABLE_ENTRIES = ("append_files", "scan_entry_verify", "scan_entry_noverify", "scan_manifest_path",
                  "scan_manifest_list", "gc_marker", "gc_listing")
 ENTRIES = STORAGE_ENTRIES + DFM_ENTRIES + TABLE_ENTRIES
 # entry points for which a TRUE absolute path is documented as "honoured only
 # if inside the root": the literal path is the reference there
-LITERAL_ABS = ("get_arrow_path", "open_parquet_source", "scan_entry_noverify")
+LITERAL_ABS = ("get_arrow_path", "open_parquet_source", "scan_entry_noverify", "write_data_file")
 
 
 # ---------------------------------------------------------------------------
@@ -570,6 +570,13 @@ def _e_open_parquet_source(w: World, p: str) -> Any:
     return "<file>"
 
 
+def _e_write_data_file(w: World, p: str) -> Any:
+    from dsmc.tables import schema
+
+    w.dfm.write_data_file(file_path=p, records=[{"a": 1, "s": "c17"}], iceberg_schema=schema())
+    return "written"
+
+
 def _e_append_files(w: World, p: str) -> Any:
     from datashard import DataFile, FileFormat
 
@@ -610,6 +617,7 @@ CALLS: Dict[str, Callable[[World, str], Any]] = {
     "create_lock": _e_create_lock,
     "get_arrow_path": lambda w, p: w.dfm._get_arrow_path(p),
     "open_parquet_source": _e_open_parquet_source,
+    "write_data_file": _e_write_data_file,
     "append_files": _e_append_files,
     "scan_entry_verify": _e_scan(True),
     "scan_entry_noverify": _e_scan(False),
